@@ -231,10 +231,10 @@ func runC20(s *Sim) {
 	if s.Failed() {
 		return
 	}
-	// One run in twenty-five: many clients at once in front of a stalled store.  The store's node-point consumer is
+	// One run in forty: many clients at once in front of a stalled store.  The store's node-point consumer is
 	// stalled (fault), a connection pours a few thousand small unacknowledged writes into the bus, the consumer comes
 	// back: the backlog is worked off and the acknowledged write sent behind it is answered.
-	if wl.Chance(1, 25) {
+	if wl.Chance(1, 40) {
 		fnc, _ := nats.Connect(in.URL(), nats.Name("flood"))
 		s.cleanup = append(s.cleanup, fnc.Close)
 		nFlood := 2100 + wl.Draw(300)
